@@ -275,6 +275,7 @@ func (b *Bank) Op(id uint64) (op OpSpec) {
 			if op.Fault == "none" {
 				op.Fault = "count"
 			}
+			op.Prefill = r.Chance(1, 3) // a reused destination: malformed input must be refused whatever it already holds
 		case roll < 96:
 			op.Kind, op.Fault = "dec", "bomb"
 			if len(b.recur) > 0 && r.Chance(3, 4) {
@@ -583,7 +584,11 @@ func Derive(prof string, c *model.Corpus, seed uint64, run int, bankLimit uint64
 	var focus []int
 	if r.Chance(3, 4) {
 		if pool := b.focusPool(seed, bankLimit > 0); len(pool) > 0 {
-			for k := 1 + r.Intn(3); k > 0; k-- {
+			k := 1 + r.Intn(3)
+			if prof == "C17" {
+				k = 4 + r.Intn(5) // a start-up warm-up names many types (see retargetLegacy)
+			}
+			for ; k > 0; k-- {
 				focus = append(focus, pool[r.Intn(len(pool))])
 			}
 		}
@@ -641,7 +646,7 @@ func Derive(prof string, c *model.Corpus, seed uint64, run int, bankLimit uint64
 		}
 	}
 	if prof == "C17" {
-		retargetLegacy(rs, b, r)
+		retargetLegacy(rs, b, r, focus)
 	}
 	return rs
 }
@@ -649,7 +654,7 @@ func Derive(prof string, c *model.Corpus, seed uint64, run int, bankLimit uint64
 // retargetLegacy places the legacy controls where they could matter: a Pretouch names the type of an operation that
 // comes later in the same history (the warm-up idiom of RPC frameworks), of an earlier one, or a random definition
 // (rejected ones included); some are directly followed by a call on a rejected definition.
-func retargetLegacy(rs *RunSpec, b *Bank, r *model.Rng) {
+func retargetLegacy(rs *RunSpec, b *Bank, r *model.Rng, focus []int) {
 	var rejOps []uint64
 	for id := uint64(0); id < b.Size && len(rejOps) < 40; id++ {
 		if op := b.Op(id); op.Kind != "legacy" && b.C.Get(op.Type) != nil && b.C.Get(op.Type).Rejected() {
@@ -705,6 +710,23 @@ func retargetLegacy(rs *RunSpec, b *Bank, r *model.Rng) {
 			for i := range rs.Sched.StartAt {
 				rs.Sched.StartAt[i] = int64(r.Intn(12))
 			}
+		}
+	}
+	// the start-up warm-up of RPC frameworks: before anything else, Pretouch every type the process is going to use
+	// (here: the definitions this history focuses on) - the legacy call is then each type's very first use
+	if len(focus) > 0 && r.Chance(2, 3) {
+		var pre []uint64
+		for id := uint64(0); id < b.Size && len(pre) < 4; id++ {
+			if op := b.Op(id); op.Kind == "legacy" && (op.Legacy == "pretouch" || op.Legacy == "pretouch-opts") {
+				pre = append(pre, id)
+			}
+		}
+		if len(pre) > 0 {
+			var warm []Step
+			for _, f := range focus {
+				warm = append(warm, Step{Task: r.Intn(rs.Tasks), Op: pre[r.Intn(len(pre))], Arg: int(FocusBase+uint64(f)*FocusVariants) + 1})
+			}
+			out = append(warm, out...)
 		}
 	}
 	for i := range out {
